@@ -15,8 +15,8 @@ CONSTANTS
   Lets = {"l1", "l2"}
   Calls = {"c1"}
   Printable = {"l1", "c1"}
-  MaxChain = 1
-  SafeRename = FALSE
+  MaxChain = 2
+  SafeRename = TRUE
 INVARIANTS TypeOK
-PROPERTIES Stable
+PROPERTIES Stable CountStable ResolutionStable
 CHECK_DEADLOCK FALSE
